@@ -30,6 +30,7 @@ var c01Layouts = []Layout{
 	LayoutMulti(32768, 20000, -12768, 40000), // file, BEP-47 pad up to the piece boundary, file
 	LayoutSingle(16384, 6*16384+100),         // 7 single-block pieces: several web seed ranges
 	LayoutMulti(16384, 2*16384, 3*16384+7),   // two files: one web seed request per file
+	LayoutMulti(32768, 10000, -5000, 40000),  // padding in the middle of a piece: file | pad | file inside piece 0
 }
 
 func init() { Register("c01", mkC01) }
